@@ -411,6 +411,27 @@ def check_case(ctx, case):
                                           cat_shuffle=True, include_ref=False)
         if shuffled is not None:
             independence(ctx, rng, ref, shuffled, "corpus_shuffle")
+        # ... and a corpus that includes the reference annotator itself: that row too is the corpus's own
+        with_ref = None
+        with P("corpus_shuffle(include_ref)", continua=[ref], dissims=[]):
+            with_ref = cst.corpus_shuffle(case["cst_annotators"], shift=True, include_ref=True)
+        if with_ref is not None:
+            from pyannote.core import Segment as _Seg
+            ref_name0 = list(ref.annotators)[0]
+            s0 = snap(ref)
+            ctx.count("M-INDEPENDENT")
+            try:
+                # edits aimed at the reference annotator's row of the corpus: a new unit, the removal of one, a hand-applied perturbation
+                with_ref.add(ref_name0, _Seg(-77.0, -76.0), list(ref.categories)[0] if len(ref.categories) else None)
+                victims = [u for u in with_ref._annotations[ref_name0]]
+                if len(victims) > 1:
+                    with_ref.remove(ref_name0, victims[0])
+                cst.false_neg_shuffle(with_ref)
+            except Exception as e:
+                ctx.observe("include_ref_edit_raises", type(e).__name__)
+            d = monitors.diff_snap(s0, snap(ref))
+            if d:
+                ctx.fail("source-changed-by-mutating:corpus_shuffle(include_ref)", {"diff": d[:4]}, monitor="M-INDEPENDENT")
             # a generated corpus must be usable (aligned) on its own
             with P("get_best_alignment(copy)", continua=[cp2 := c.copy()], dissims=[dissim]):
                 cp2.get_best_alignment(dissim)
